@@ -73,6 +73,7 @@ type c15LiveReq struct {
 
 type c15LiveIn struct {
 	Reqs []c15LiveReq `json:"reqs"`
+	HTS  uint32       `json:"hts,omitempty"` // both peers: MaxDecoderHeaderTableSize = MaxEncoderHeaderTableSize (0: the library's default, 4096)
 }
 
 type c15LiveOut struct {
@@ -99,14 +100,20 @@ func c15Live(in *c15LiveIn) c15LiveOut {
 		_, _ = io.Copy(io.Discard, req.Body)
 		spec := byName[req.Header.Get("X-Test-Case-Name")]
 		w.Header().Set("Content-Type", spec.CT)
+		if spec.Big > 0 {
+			w.Header().Set("X-Rbig", strings.Repeat("r", spec.Big%7000))
+		}
 		w.WriteHeader(spec.Status)
 		_, _ = w.Write(c15Unhex(spec.RespBody))
 	})
-	server := &http.Server{Handler: h2c.NewHandler(handler, &http2.Server{MaxReadFrameSize: 16384}), ReadHeaderTimeout: 5 * time.Second}
+	server := &http.Server{Handler: h2c.NewHandler(handler, &http2.Server{MaxReadFrameSize: 16384,
+		MaxDecoderHeaderTableSize: in.HTS, MaxEncoderHeaderTableSize: in.HTS}), ReadHeaderTimeout: 5 * time.Second}
 	go func() { _ = server.Serve(tracer.TracingHTTP2Listener(listener, serverSink)) }()
 	transport := &http2.Transport{
-		AllowHTTP:          true,
-		DisableCompression: true,
+		AllowHTTP:                 true,
+		DisableCompression:        true,
+		MaxDecoderHeaderTableSize: in.HTS,
+		MaxEncoderHeaderTableSize: in.HTS,
 		DialTLSContext: func(ctx context.Context, network, addr string, _ *tls.Config) (net.Conn, error) {
 			conn, err := (&net.Dialer{}).DialContext(ctx, network, addr)
 			if err != nil {
@@ -174,13 +181,28 @@ type c15Frame struct {
 	Pad  int         `json:"pad,omitempty"`
 	Prio bool        `json:"prio,omitempty"`
 	Kind string      `json:"kind,omitempty"` // for O: settings | ack | ping | window | priority | unknown
+	S    [][2]uint32 `json:"s,omitempty"`    // for O/settings: the (id, value) pairs of the SETTINGS frame (default: MAX_FRAME_SIZE, INITIAL_WINDOW_SIZE)
+	TS   []c15TS     `json:"ts,omitempty"`   // for H: operations on this direction's hpack.Encoder before the block is encoded
 }
 
+// c15TS is one operation on a direction's hpack.Encoder: "l" SetMaxDynamicTableSizeLimit(v)
+// (what the peer's SETTINGS_HEADER_TABLE_SIZE allows), "s" SetMaxDynamicTableSize(v).  The
+// encoder emits the resulting dynamic-table-size update(s) at the start of the next block.
+type c15TS struct {
+	Op string `json:"op"`
+	V  uint32 `json:"v"`
+}
+
+// Calls of c15In, the script of the inner connection:
+// ["r", n, kind, tag]: the inner Read returns the next n bytes AND the error of that kind in one call;
+// ["w", n, kind, tag, wn]: Write of the next n bytes, the inner Write returns (min(wn, n), error) (wn absent: n, or n/2 with an error);
+// ["c", kind, tag] Close; ["t"] retryWait elapses.
+// kind: ok | eof (io.EOF) | timeout | deadline (*net.OpError wrapping os.ErrDeadlineExceeded) | fail
 type c15In struct {
 	Server bool              `json:"server"`
 	Legal  bool              `json:"legal"` // every frame is one the real Framer accepts (no X, no mutation)
 	Frames []c15Frame        `json:"frames"`
-	Calls  [][]any           `json:"calls"` // ["r"|"w", n, "ok"|"timeout"|"fail", tag] | ["c", kind, tag] | ["t"]
+	Calls  [][]any           `json:"calls"`
 	Mut    [][]any           `json:"mut,omitempty"` // [dir, offset, xor]
 	Raw    map[string]string `json:"raw,omitempty"` // whole byte string of a direction (fuzz)
 	Note   string            `json:"note,omitempty"`
@@ -226,6 +248,8 @@ type c15RetryIn struct {
 
 const c15Preface = "PRI * HTTP/2.0\r\n\r\nSM\r\n\r\n"
 
+const c15MaxFrame = 16384
+
 type c15Side struct {
 	buf  bytes.Buffer
 	fr   *http2.Framer
@@ -262,6 +286,14 @@ func c15Build(frames []c15Frame) (q, p []byte, lens []int) {
 		switch f.T {
 		case "H":
 			s.hbuf.Reset()
+			for _, ts := range f.TS {
+				switch ts.Op {
+				case "l":
+					s.enc.SetMaxDynamicTableSizeLimit(ts.V)
+				case "s":
+					s.enc.SetMaxDynamicTableSize(ts.V)
+				}
+			}
 			for _, kv := range f.F {
 				s.enc.WriteField(hpack.HeaderField{Name: kv[0], Value: kv[1]})
 			}
@@ -269,6 +301,9 @@ func c15Build(frames []c15Frame) (q, p []byte, lens []int) {
 			pieces := f.Cont
 			if pieces < 1 {
 				pieces = 1
+			}
+			if need := (len(block) + c15MaxFrame - 1) / c15MaxFrame; pieces < need {
+				pieces = need // a block larger than the default SETTINGS_MAX_FRAME_SIZE continues in CONTINUATION frames
 			}
 			if pieces > len(block) {
 				pieces = len(block)
@@ -299,6 +334,14 @@ func c15Build(frames []c15Frame) (q, p []byte, lens []int) {
 		case "O":
 			switch f.Kind {
 			case "settings":
+				if len(f.S) > 0 {
+					var set []http2.Setting
+					for _, kv := range f.S {
+						set = append(set, http2.Setting{ID: http2.SettingID(kv[0]), Val: kv[1]})
+					}
+					s.fr.WriteSettings(set...)
+					break
+				}
 				s.fr.WriteSettings(http2.Setting{ID: http2.SettingMaxFrameSize, Val: 16384}, http2.Setting{ID: http2.SettingInitialWindowSize, Val: 65535})
 			case "ack":
 				s.fr.WriteSettingsAck()
@@ -437,6 +480,10 @@ func (s *c15Sink) Complete(t tracer.Trace) {
 
 func c15MkErr(kind, tag string) error {
 	switch kind {
+	case "eof":
+		return io.EOF
+	case "deadline":
+		return &net.OpError{Op: "read", Net: "tcp", Err: os.ErrDeadlineExceeded}
 	case "timeout":
 		return &c15Err{tag: tag, timeout: true}
 	case "fail":
@@ -448,6 +495,22 @@ func c15MkErr(kind, tag string) error {
 func c15ErrClass(err error) string {
 	if err == nil {
 		return "nil"
+	}
+	wrapped := strings.HasPrefix(err.Error(), "socket closed; ")
+	if err == io.EOF {
+		return "io:EOF"
+	}
+	if wrapped && errors.Is(err, io.EOF) {
+		return "closed:EOF"
+	}
+	var oe *net.OpError
+	if errors.As(err, &oe) && errors.Is(err, os.ErrDeadlineExceeded) {
+		if err == error(oe) {
+			return "io:deadline"
+		}
+		if wrapped {
+			return "closed:deadline"
+		}
 	}
 	var ie *c15Err
 	if errors.As(err, &ie) {
@@ -642,6 +705,13 @@ func c15Conn(in *c15In) c15Out {
 			inner.wN = len(chunk)
 			if inner.wErr != nil {
 				inner.wN = len(chunk) / 2
+			}
+			if len(call) >= 5 {
+				if wn := c15Num(call[4]); wn >= 0 && wn < len(chunk) {
+					inner.wN = wn
+				} else {
+					inner.wN = len(chunk)
+				}
 			}
 			inner.wGot = nil
 			arg := append([]byte{}, chunk...)
@@ -1029,6 +1099,80 @@ func (g *c15Gen) variants(frames []c15Frame, legal bool, tail [][]any, class str
 			calls := append(c15Calls(server, runs, part), tail...)
 			g.emit(c15In{Server: server, Legal: legal, Frames: frames, Calls: calls, Note: class}, class)
 		}
+		// the inner connection returns bytes together with an error: the last Read of the exchange
+		// (the connection is used no further), and some call in the middle (the script goes on)
+		calls := c15Calls(server, runs, gen.Pick(g.r, parts[:3]))
+		if k := c15LastOf(calls, "r"); k >= 0 {
+			ended := c15WithResult(calls, k, gen.Pick(g.r, []string{"eof", "eof", "fail"}), "EL", -1)
+			g.emit(c15In{Server: server, Legal: legal, Frames: frames, Calls: ended[:k+1:k+1], Note: class + "+err"}, class+"+err")
+		}
+		calls = c15Calls(server, runs, gen.Pick(g.r, parts[:3]))
+		if len(calls) > 0 {
+			k := g.r.Intn(len(calls))
+			calls = c15WithResult(calls, k, gen.Pick(g.r, c15ErrKinds), "EM", g.r.Intn(c15Num(calls[k][1])+1))
+			g.emit(c15In{Server: server, Legal: legal, Frames: frames, Calls: append(calls, tail...), Note: class + "+err"}, class+"+err")
+		}
+	}
+}
+
+// the error kinds of the inner connection; any of them may accompany any number of bytes
+var c15ErrKinds = []string{"eof", "timeout", "deadline", "fail"}
+
+// c15WithResult returns a copy of calls in which call k (a Read or a Write) ends with the given
+// error kind — together with its bytes; a Write reports wn bytes written (wn < 0: all).
+func c15WithResult(calls [][]any, k int, kind, tag string, wn int) [][]any {
+	out := append([][]any{}, calls...)
+	n := c15Num(calls[k][1])
+	if c15Str(calls[k][0]) == "w" {
+		if wn < 0 || wn > n {
+			wn = n
+		}
+		out[k] = []any{"w", n, kind, tag, wn}
+	} else {
+		out[k] = []any{"r", n, kind, tag}
+	}
+	return out
+}
+
+func c15LastOf(calls [][]any, kind string) int {
+	for k := len(calls) - 1; k >= 0; k-- {
+		if c15Str(calls[k][0]) == kind {
+			return k
+		}
+	}
+	return -1
+}
+
+// errData: one exchange; every call of a few partitions, on both sides, ends with every error
+// kind together with its bytes (Reads) / with every count 0, n/2, n (Writes; also short without
+// an error); the connection is then either used no further, or the script goes on and closes.
+func (g *c15Gen) errData(frames []c15Frame, note string, parts []func(int, int) []int) {
+	_, _, lens := c15Build(frames)
+	runs := c15Runs(frames, lens)
+	for _, server := range []bool{false, true} {
+		for _, part := range parts {
+			calls := c15Calls(server, runs, part)
+			for k := range calls {
+				n := c15Num(calls[k][1])
+				wns := []int{-1}
+				if c15Str(calls[k][0]) == "w" {
+					wns = []int{0, n}
+					if n/2 > 0 {
+						wns = []int{0, n / 2, n}
+					}
+				}
+				for _, kind := range append([]string{"ok"}, c15ErrKinds...) {
+					for _, wn := range wns {
+						if kind == "ok" && (wn < 0 || wn == n) {
+							continue // the plain call
+						}
+						mod := c15WithResult(calls, k, kind, "EK", wn)
+						g.emit(c15In{Server: server, Legal: true, Frames: frames, Calls: mod[:k+1:k+1], Note: note}, note)
+						g.emit(c15In{Server: server, Legal: true, Frames: frames, Calls: append(mod, c15Close...), Note: note}, note)
+					}
+				}
+			}
+		}
 	}
 }
 
@@ -1104,6 +1248,17 @@ func runC15(c *gen.Ctx) error {
 			}
 			for c1 := 1; c1 <= lim; c1++ {
 				g.emit(c15In{Server: server, Legal: true, Frames: basic, Calls: append(c15Calls(server, runs, c15CutsAt(which, c1)), c15Close...), Note: "cut1"}, "cut1")
+				// ... and the call that ends at the cut / the one that starts there returns its bytes together with an error
+				cut := c15Calls(server, runs, c15CutsAt(which, c1))
+				for _, k := range []int{which, which + 1} {
+					kinds := []string{c15ErrKinds[(c1+k)%len(c15ErrKinds)]}
+					if thorough {
+						kinds = c15ErrKinds
+					}
+					for _, kind := range kinds {
+						g.emit(c15In{Server: server, Legal: true, Frames: basic, Calls: append(c15WithResult(cut, k, kind, "EC", c1/2), c15Close...), Note: "cut1+err"}, "cut1+err")
+					}
+				}
 			}
 			lim2 := 14
 			if thorough {
@@ -1120,10 +1275,39 @@ func runC15(c *gen.Ctx) error {
 		}
 	}
 
+	// ---- G1b: bytes together with an error, at every call of a few partitions
+	edParts := []func(int, int) []int{c15Whole, c15Fixed(23), c15RandPart(r)}
+	if thorough {
+		edParts = append(edParts, c15Fixed(1), c15Fixed(5), c15Fixed(9), c15RandPart(r), c15RandPart(r))
+	}
+	g.errData(basic, "errdata", edParts)
+	two := []c15Frame{
+		{D: "q", T: "H", ID: 1, F: c15ReqFields("t1", "application/grpc", "/svc.S/M")},
+		{D: "q", T: "H", ID: 3, F: c15ReqFields("t2", "application/connect+proto", "/svc.S/N"), ES: true},
+		{D: "p", T: "H", ID: 3, F: c15RespFields("200", "application/connect+proto")},
+		{D: "q", T: "D", ID: 1, X: gen.Hex(c15Msg(0, []byte("ab"))), ES: true},
+		{D: "p", T: "D", ID: 3, X: gen.Hex(c15Msg(0, []byte("xyz"))), ES: true},
+		{D: "p", T: "H", ID: 1, F: c15RespFields("200", "application/grpc", [2]string{"grpc-status", "0"}), ES: true},
+	}
+	g.errData(two, "errdata2", []func(int, int) []int{c15Whole, c15RandPart(r)})
+
 	// ---- G2: scenario families
 	for _, sc := range c15Scenarios() {
 		g.c.E.Count("scenario:" + sc.name)
 		g.variants(sc.frames, sc.legal, sc.tail, "scenario", false)
+	}
+
+	// ---- G2a: header tables other than the default (SETTINGS_HEADER_TABLE_SIZE, size updates, large indexed values)
+	for _, sc := range c15HpackScenarios() {
+		g.c.E.Count("scenario:" + sc.name)
+		_, _, ls := c15Build(sc.frames)
+		rs := c15Runs(sc.frames, ls)
+		for _, server := range []bool{false, true} {
+			for _, part := range []func(int, int) []int{c15Whole, c15BigPart(r)} {
+				calls := append(c15Calls(server, rs, part), sc.tail...)
+				g.emit(c15In{Server: server, Legal: true, Frames: sc.frames, Calls: calls, Note: "hpack"}, "hpack")
+			}
+		}
 	}
 
 	// ---- G2b: random concurrent exchanges
@@ -1169,6 +1353,17 @@ func runC15(c *gen.Ctx) error {
 		}
 		c.E.Count("class:live")
 		c.Do("live", c15LiveIn{Reqs: reqs})
+		if i%4 == 0 {
+			// the same requests between peers configured with a larger / smaller header table:
+			// real SETTINGS_HEADER_TABLE_SIZE and real dynamic-table-size updates
+			for k := range reqs {
+				if reqs[k].Big == 0 {
+					reqs[k].Big = 3000 + 100*k
+				}
+			}
+			c.E.Count("class:live-tables")
+			c.Do("live", c15LiveIn{Reqs: reqs, HTS: gen.Pick(r, []uint32{65536, 8192, 1 << 20, 1000})})
+		}
 	}
 
 	// ---- the few scenarios that wait for retryWait (run in parallel)
@@ -1345,6 +1540,13 @@ func (g *c15Gen) randomExchange(i int) {
 		ctl := c15Frame{D: gen.Pick(r, []string{"p", "q"}), T: "O", Kind: gen.Pick(r, []string{"settings", "ack", "ping", "window", "priority", "unknown"}), X: "00"}
 		frames = append(frames[:pos:pos], append([]c15Frame{ctl}, frames[pos:]...)...)
 	}
+	class := "random"
+	big := false
+	if r.Chance(1, 5) {
+		// header tables other than the default 4096 bytes, large indexed values
+		frames = c15RandTables(r, frames)
+		class, big = "random-hpack", true
+	}
 	_, _, lens := c15Build(frames)
 	runs := c15Runs(frames, lens)
 	server := r.Bool()
@@ -1354,22 +1556,37 @@ func (g *c15Gen) randomExchange(i int) {
 		part = c15Whole
 	case 1:
 		part = c15Fixed(1 + r.Intn(4))
+		if big {
+			part = c15Fixed(50 + r.Intn(3000))
+		}
 	default:
 		part = c15RandPart(r)
+		if big {
+			part = c15BigPart(r)
+		}
 	}
 	calls := c15Calls(server, runs, part)
 	// endings
 	switch r.Intn(8) {
 	case 0:
-		// the connection dies somewhere in the middle
-		k := r.Intn(len(calls) + 1)
-		calls = append(calls[:k:k], []any{gen.Pick(r, []string{"r", "w"}), 0, "fail", fmt.Sprintf("E%d", i)})
+		// the connection dies somewhere in the middle: an error on its own or together with bytes
+		if r.Bool() && len(calls) > 0 {
+			k := r.Intn(len(calls))
+			calls = c15WithResult(calls, k, gen.Pick(r, []string{"eof", "fail"}), fmt.Sprintf("E%d", i), r.Intn(c15Num(calls[k][1])+1))[: k+1 : k+1]
+		} else {
+			k := r.Intn(len(calls) + 1)
+			calls = append(calls[:k:k], []any{gen.Pick(r, []string{"r", "w"}), 0, gen.Pick(r, []string{"fail", "fail", "eof"}), fmt.Sprintf("E%d", i)})
+		}
 		if r.Bool() {
 			calls = append(calls, []any{"c", "ok", ""})
 		}
 	case 1:
-		k := r.Intn(len(calls) + 1)
-		calls = append(calls[:k:k], append([][]any{{"r", 0, "timeout", "T"}}, calls[k:]...)...)
+		// a Read times out (and the connection goes on): on its own or together with bytes
+		if k := r.Intn(len(calls) + 1); r.Bool() && k < len(calls) && c15Str(calls[k][0]) == "r" {
+			calls = c15WithResult(calls, k, gen.Pick(r, []string{"timeout", "deadline"}), "T", -1)
+		} else {
+			calls = append(calls[:k:k], append([][]any{{"r", 0, gen.Pick(r, []string{"timeout", "deadline"}), "T"}}, calls[k:]...)...)
+		}
 		calls = append(calls, []any{"c", "ok", ""})
 	case 2:
 		// nothing: the connection stays open
@@ -1378,7 +1595,224 @@ func (g *c15Gen) randomExchange(i int) {
 	default:
 		calls = append(calls, []any{"c", "ok", ""})
 	}
-	g.emit(c15In{Server: server, Legal: true, Frames: frames, Calls: calls, Note: "random"}, "random")
+	g.emit(c15In{Server: server, Legal: true, Frames: frames, Calls: calls, Note: class}, class)
+}
+
+// ---------------------------------------------------------------- HPACK dynamic table sizes
+
+var c15TableSizes = []uint32{0, 4096, 8192, 65536}
+
+// c15Settings is a SETTINGS frame announcing the sender's SETTINGS_HEADER_TABLE_SIZE value(s):
+// the upper bound for the dynamic table of the *other* direction's encoder.
+func c15Settings(d string, hts ...uint32) c15Frame {
+	f := c15Frame{D: d, T: "O", Kind: "settings"}
+	for _, v := range hts {
+		f.S = append(f.S, [2]uint32{uint32(http2.SettingHeaderTableSize), v})
+	}
+	f.S = append(f.S, [2]uint32{uint32(http2.SettingMaxFrameSize), c15MaxFrame})
+	return f
+}
+
+func c15Other(d string) string {
+	if d == "q" {
+		return "p"
+	}
+	return "q"
+}
+
+// c15BigPart cuts a run into calls of up to 4 KiB (now and then a few bytes only).
+func c15BigPart(r *gen.Rand) func(int, int) []int {
+	return func(_ int, n int) []int {
+		var out []int
+		for n > 0 {
+			c := 1 + r.Intn(4096)
+			if r.Chance(1, 6) {
+				c = 1 + r.Intn(9)
+			}
+			if c > n {
+				c = n
+			}
+			out = append(out, c)
+			n -= c
+		}
+		return out
+	}
+}
+
+// c15Big is a header value of the given length (compresses badly enough to stay large).
+func c15Big(seed byte, n int) string {
+	b := make([]byte, n)
+	for i := range b {
+		b[i] = "abcdefghijklmnopqrstuvwxyz0123456789"[(int(seed)*7+i*i+i/3)%36]
+	}
+	return string(b)
+}
+
+// c15ApplyTables walks the frames in global order as two protocol-abiding peers would: the
+// encoder of a direction keeps its dynamic table within the last SETTINGS_HEADER_TABLE_SIZE the
+// other side has sent (4096 before any); want(d, limit) proposes, for a header block of
+// direction d, a table size to switch to (< 0: keep).  The table-size operations are recorded
+// on the HEADERS frames (the real hpack.Encoder emits the updates at the start of the block).
+func c15ApplyTables(frames []c15Frame, want func(d string, limit uint32) int64) []c15Frame {
+	out := append([]c15Frame{}, frames...)
+	limit := map[string]uint32{"q": 4096, "p": 4096}
+	pending := map[string]bool{}
+	for i := range out {
+		f := &out[i]
+		switch {
+		case f.T == "O" && f.Kind == "settings":
+			for _, kv := range f.S {
+				if kv[0] == uint32(http2.SettingHeaderTableSize) {
+					limit[c15Other(f.D)] = kv[1]
+					pending[c15Other(f.D)] = true
+				}
+			}
+		case f.T == "H":
+			var ts []c15TS
+			if pending[f.D] {
+				ts = append(ts, c15TS{"l", limit[f.D]}) // shrinks the table if it is larger
+				pending[f.D] = false
+			}
+			if w := want(f.D, limit[f.D]); w >= 0 && uint32(w) <= limit[f.D] {
+				ts = append(ts, c15TS{"s", uint32(w)})
+			}
+			f.TS = ts
+		}
+	}
+	return out
+}
+
+// c15RandTables decorates a random exchange: SETTINGS with HEADER_TABLE_SIZE in both directions
+// (at the start, sometimes again later), encoders that follow / shrink / grow, and large header
+// values that are indexed when the table is large enough and reused by later streams.
+func c15RandTables(r *gen.Rand, frames []c15Frame) []c15Frame {
+	out := []c15Frame{c15Settings("q", gen.Pick(r, c15TableSizes)), c15Settings("p", gen.Pick(r, c15TableSizes)),
+		{D: "q", T: "O", Kind: "ack"}, {D: "p", T: "O", Kind: "ack"}}
+	bigQ, bigP := c15Big(1, gen.Pick(r, []int{40, 3000, 5000})), c15Big(2, gen.Pick(r, []int{40, 3000, 6000}))
+	for _, f := range frames {
+		if f.T == "H" && len(f.F) > 0 && f.F[0][0] == ":method" && r.Chance(2, 3) {
+			f.F = append(append([][2]string{}, f.F...), [2]string{"x-big", bigQ})
+		}
+		if f.T == "H" && len(f.F) > 0 && f.F[0][0] == ":status" && r.Chance(2, 3) {
+			f.F = append(append([][2]string{}, f.F...), [2]string{"x-rbig", bigP})
+		}
+		out = append(out, f)
+		if r.Chance(1, 12) {
+			d := gen.Pick(r, []string{"q", "p"})
+			out = append(out, c15Settings(d, gen.Pick(r, c15TableSizes)), c15Frame{D: c15Other(d), T: "O", Kind: "ack"})
+		}
+	}
+	return c15ApplyTables(out, func(_ string, limit uint32) int64 {
+		switch r.Intn(6) {
+		case 0:
+			return int64(limit)
+		case 1:
+			return int64(r.Intn(int(limit) + 1))
+		case 2:
+			return int64(gen.Pick(r, []uint32{0, 100, 4096}))
+		}
+		return -1
+	})
+}
+
+// hpackScenarios: fixed exchanges around SETTINGS_HEADER_TABLE_SIZE.  Every combination of the
+// two peers' announced sizes, the encoders switching to the announced size at their first block
+// (three streams sharing two 3000-byte request values and one response value: literal with
+// indexing on the first stream, index references or literals later, depending on the table);
+// encoders that stay at 4096 or below although more is allowed; shrink / grow sequences,
+// including shrink-to-0-then-grow between two blocks (two size updates at the start of a block)
+// and a peer lowering its limit in the middle of the connection.
+func c15HpackScenarios() []c15Scenario {
+	var out []c15Scenario
+	bigA, bigB, bigR := c15Big(3, 3000), c15Big(4, 3000), c15Big(5, 3500)
+	stream := func(id uint32, name string) []c15Frame {
+		return c15SetIDs([]c15Frame{
+			c15H("q", c15ReqFields(name, "application/grpc", "/svc.S/M", [2]string{"x-big-a", bigA}, [2]string{"x-big-b", bigB}), false),
+			c15D("q", c15Msg(0, []byte("hi")), true),
+			c15H("p", c15RespFields("200", "application/grpc", [2]string{"x-big-r", bigR}), false),
+			c15D("p", c15Msg(0, []byte("ho")), false),
+			c15H("p", [][2]string{{"grpc-status", "0"}}, true),
+		}, id)
+	}
+	three := func() []c15Frame {
+		fr := append(stream(1, "t1"), stream(3, "t2")...)
+		return append(fr, stream(5, "t3")...)
+	}
+	start := func(vq, vp uint32) []c15Frame {
+		return []c15Frame{c15Settings("q", vq), c15Settings("p", vp), {D: "q", T: "O", Kind: "ack"}, {D: "p", T: "O", Kind: "ack"}}
+	}
+	for _, vq := range c15TableSizes {
+		for _, vp := range c15TableSizes {
+			// both encoders go to what the peer allows, at their first block
+			first := map[string]bool{}
+			fr := c15ApplyTables(append(start(vq, vp), three()...), func(d string, limit uint32) int64 {
+				if !first[d] {
+					first[d] = true
+					return int64(limit)
+				}
+				return -1
+			})
+			out = append(out, c15Scenario{fmt.Sprintf("hpack-follow-%d-%d", vq, vp), fr, true, c15Close})
+		}
+	}
+	// the peers allow more, the encoders do not use it / use less
+	for _, w := range []int64{-1, 4096, 1000, 0} {
+		w := w
+		first := map[string]bool{}
+		fr := c15ApplyTables(append(start(65536, 8192), three()...), func(d string, _ uint32) int64 {
+			if !first[d] {
+				first[d] = true
+				return w
+			}
+			return -1
+		})
+		out = append(out, c15Scenario{fmt.Sprintf("hpack-stay-%d", w), fr, true, c15Close})
+	}
+	// shrink / grow sequences on the request side (one operation list per request block)
+	seqs := [][]int64{{65536, 100, 65536}, {8192, 0, 8192}, {65536, 4096, 4097}, {4097, 8192, 65536}, {0, 4096, 0}, {5000, 3000, 6000}}
+	for si, seq := range seqs {
+		k := 0
+		fr := c15ApplyTables(append(start(4096, 65536), three()...), func(d string, _ uint32) int64 {
+			if d == "q" && k < len(seq) {
+				k++
+				return seq[k-1]
+			}
+			return -1
+		})
+		out = append(out, c15Scenario{fmt.Sprintf("hpack-seq-%d", si), fr, true, c15Close})
+	}
+	// two operations before one block: shrink to 0 then grow (the block opens with two size updates)
+	{
+		fr := append(start(65536, 65536), three()...)
+		fr = c15ApplyTables(fr, func(string, uint32) int64 { return -1 })
+		n := 0
+		for i := range fr {
+			if fr[i].T == "H" && len(fr[i].F) > 0 && fr[i].F[0][0] == ":method" {
+				n++
+				if n == 2 {
+					fr[i].TS = append(fr[i].TS, c15TS{"s", 0}, c15TS{"s", 20000})
+				}
+			}
+		}
+		out = append(out, c15Scenario{"hpack-flush-and-grow", fr, true, c15Close})
+	}
+	// a peer lowers / raises its limit in the middle of the connection; one SETTINGS frame with two values
+	for mi, mid := range [][]uint32{{4096}, {0}, {100}, {65536}, {0, 8192}} {
+		fr := append(start(8192, 8192), stream(1, "t1")...)
+		fr = append(fr, c15Settings("p", mid...), c15Frame{D: "q", T: "O", Kind: "ack"}, c15Settings("q", mid...), c15Frame{D: "p", T: "O", Kind: "ack"})
+		fr = append(fr, stream(3, "t2")...)
+		fr = append(fr, stream(5, "t3")...)
+		first := map[string]int{}
+		fr = c15ApplyTables(fr, func(d string, limit uint32) int64 {
+			first[d]++
+			if first[d] == 1 || first[d] == 4 {
+				return int64(limit)
+			}
+			return -1
+		})
+		out = append(out, c15Scenario{fmt.Sprintf("hpack-mid-%d", mi), fr, true, c15Close})
+	}
+	return out
 }
 
 // fuzz: structurally malformed sequences, mutated bytes, random bytes.
